@@ -70,6 +70,8 @@ class Deep:
         # a shutdown closed the task handler: without this a second start() fails in its first config update
         self.task_handler.open()
         self.trigger_handler.start()
+        # a shutdown emptied the handler: give it the config we still hold (and report the hash of) again
+        self.config.tracepoints.resend_config()
         try:
             self.grpc.start()
             self.poll.start()
